@@ -410,10 +410,20 @@ class Q:
         self.xs = [z3.Real("%s%d" % (name, i)) for i in range(nvars)]
         self.s = z3.Solver()
         self.s.set("timeout", timeout_ms)
+        self.timeout_ms = timeout_ms
         self.stats = Stats()
 
-    def check(self, assertions, want_model=True, sample_tag=None):
+    def check(self, assertions, want_model=True, sample_tag=None, timeout_ms=None):
         """returns ('sat', model_as_list_of_Fraction) | ('unsat', None) | ('unknown', None)"""
+        if timeout_ms is not None:
+            self.s.set("timeout", timeout_ms)
+        try:
+            return self._check(assertions, want_model, sample_tag, aux=timeout_ms is not None)
+        finally:
+            if timeout_ms is not None:
+                self.s.set("timeout", self.timeout_ms)
+
+    def _check(self, assertions, want_model, sample_tag, aux=False):
         self.s.push()
         for a in assertions:
             self.s.add(a)
@@ -432,7 +442,8 @@ class Q:
             self.stats.unsat += 1
             res = "unsat"
         else:
-            self.stats.unknown += 1
+            if not aux:
+                self.stats.unknown += 1
             res = "unknown"
         if sample_tag is not None and len(self.stats.samples) < 3:
             try:
@@ -451,7 +462,7 @@ class Q:
         scale = 1 << grid_bits
         grid = [x * scale == z3.ToReal(n) for x, n in zip(self.xs, ns)]
         bound = [z3.And(x <= 1 << 20, x >= -(1 << 20)) for x in self.xs]
-        r, m = self.check(list(assertions) + grid + bound)
+        r, m = self.check(list(assertions) + grid + bound, timeout_ms=2000)
         if r == "sat":
             return m, True
         r, m = self.check(assertions)
